@@ -267,34 +267,46 @@ def rand_instant(rng, z=None):
 
 
 def gen_angles(rng, n, tier="quick"):
-    """zenith_and_azimuth / zenith / azimuth / elevation, naive and aware"""
-    for i in range(n):
+    """zenith_and_azimuth / zenith / azimuth / elevation: every instant is presented in several
+    spellings one after the other (naive UTC, aware UTC, two zones; both folds of an ambiguous
+    wall time when there is one) — a cache keyed on an equal-comparing datetime shows up"""
+    i = 0
+    while i < n:
         o = gens.rand_observer(rng, tuples=False)
         naive = rand_instant(rng)
-        if rng.random() < 0.35:
-            dt, off_tok, zl = naive, N, "naive"
-        else:
+        spell = [(naive, N, "naive")]
+        u = naive.replace(tzinfo=datetime.timezone.utc)
+        if rng.random() < 0.5:
+            spell.append((u, I(0), "UTC"))
+        for _ in range(rng.randint(1, 2)):
             z = zones.rand_zone(rng, naive.date())
-            dt = naive.replace(tzinfo=datetime.timezone.utc).astimezone(z.tzinfo)
-            off_tok, zl = I(td_us(dt.utcoffset())), z.describe()
+            dt = u.astimezone(z.tzinfo)
+            spell.append((dt, I(td_us(dt.utcoffset())), z.describe()))
+            if z.iana and rng.random() < 0.3:
+                # the same wall clock with the other fold (a different instant if ambiguous)
+                dt2 = dt.replace(fold=1 - dt.fold)
+                spell.append((dt2, I(td_us(dt2.utcoffset())), z.describe() + " fold"))
+        rng.shuffle(spell)
         wr = rng.random() < 0.6
-        descr = {"observer": obs_descr(o), "datetime": dt.isoformat(), "zone": zl,
-                 "with_refraction": wr}
-        base = "%s %s %s" % (obs_tok(o), I(wall_us(dt)), off_tok)
-        k = i % 4
-        if k == 0:
-            st, v = call(sun.zenith_and_azimuth, o, dt, wr)
-            yield Case("zenith_and_azimuth", "zenith_and_azimuth %s %s" % (base, B(wr)),
-                       ("%s %s" % (FS(v[0]), FS(v[1]))) if st == "ok" else E(v), descr)
-        elif k == 1:
-            st, v = call(sun.zenith, o, dt, wr)
-            yield Case("zenith", "zenith %s %s" % (base, B(wr)), tok_res(st, v, FS), descr)
-        elif k == 2:
-            st, v = call(sun.azimuth, o, dt)
-            yield Case("azimuth", "azimuth %s" % base, tok_res(st, v, FS), descr)
-        else:
-            st, v = call(sun.elevation, o, dt, wr)
-            yield Case("elevation", "elevation %s %s" % (base, B(wr)), tok_res(st, v, FS), descr)
+        for dt, off_tok, zl in spell:
+            descr = {"observer": obs_descr(o), "datetime": dt.isoformat(), "zone": zl,
+                     "with_refraction": wr, "fold": dt.fold}
+            base = "%s %s %s" % (obs_tok(o), I(wall_us(dt)), off_tok)
+            k = i % 4
+            i += 1
+            if k == 0:
+                st, v = call(sun.zenith_and_azimuth, o, dt, wr)
+                yield Case("zenith_and_azimuth", "zenith_and_azimuth %s %s" % (base, B(wr)),
+                           ("%s %s" % (FS(v[0]), FS(v[1]))) if st == "ok" else E(v), descr)
+            elif k == 1:
+                st, v = call(sun.zenith, o, dt, wr)
+                yield Case("zenith", "zenith %s %s" % (base, B(wr)), tok_res(st, v, FS), descr)
+            elif k == 2:
+                st, v = call(sun.azimuth, o, dt)
+                yield Case("azimuth", "azimuth %s" % base, tok_res(st, v, FS), descr)
+            else:
+                st, v = call(sun.elevation, o, dt, wr)
+                yield Case("elevation", "elevation %s %s" % (base, B(wr)), tok_res(st, v, FS), descr)
 
 
 GROUPS = {
